@@ -808,3 +808,60 @@ def h_e_hist3(k1: int, k2: int, k3: int, a1: int, a2: int, a3: int, b: int) -> b
     post: _
     """
     return untraced(_hist3, pick(k1, 0, 6), pick(k2, 0, 6), pick(k3, 0, 6), pick(a1, 0, 2), pick(a2, 1, 2), pick(a3, 0, 1), pick(b, 0, 1))
+
+
+# ------------------------------------------------ an index with the wrong number of coordinates is outside the domain
+def _arity(kind, off, i1, i2, extra, wild):
+    F = CNF()
+    F.update_variable_number(off)
+    if kind == 0:
+        g, full = F.new_block(3, 4), [i1, i2]
+    elif kind == 1:
+        g, full = F.new_block(2, 3, 2), [1 + i1 % 2, i2 % 3 + 1, 1 + i1 % 2]
+    elif kind == 2:
+        g, full = F.new_combinations(4, 2), sorted([i1, i1 + 1])
+    elif kind == 3:
+        g, full = F.new_words(3, 2), [i1, i2 % 3 + 1]
+    elif kind == 4:
+        g, full = F.new_mapping(3, 4), [i1, i2]
+    elif kind == 5:
+        B = BipartiteGraph(3, 4)
+        for u in range(1, 4):
+            for v in range(1, 5):
+                B.add_edge(u, v)
+        g, full = F.new_sparse_mapping(B), [i1, i2]
+    elif kind == 6:
+        H = Graph.complete_graph(4)
+        g, full = F.new_graph_edges(H), [min(i1, i2 if i2 != i1 else 4), max(i1, i2 if i2 != i1 else 4)]
+    elif kind == 7:
+        g, full = F.new_binary_mapping(3, 4), [i1, i2 % 2]
+    else:
+        g, full = F.new_permutations(3, 2), [i1, i1 % 3 + 1]
+    try:
+        ok = g(*full)
+    except ValueError:
+        return False                      # the full index is legal
+    if not isinstance(ok, int):
+        return False
+    bad = list(full[:-1]) if extra == 0 else list(full) + [1]
+    if extra == 2:
+        bad = list(full) + [None]
+    if wild and bad:
+        bad[0] = None
+    if not bad:
+        return True                       # no argument at all is the documented way to enumerate the group
+    try:
+        r = g(*bad)
+        if not isinstance(r, int):
+            list(r)
+    except ValueError:
+        return True
+    return False
+
+
+def h_e_arity(kind: int, off: int, i1: int, i2: int, extra: int, wild: bool) -> bool:
+    """
+    pre: 0 <= kind <= 8 and 0 <= off <= 2 and 1 <= i1 <= 3 and 1 <= i2 <= 4 and 0 <= extra <= 2
+    post: _
+    """
+    return untraced(_arity, pick(kind, 0, 8), pick(off, 0, 2), pick(i1, 1, 3), pick(i2, 1, 4), pick(extra, 0, 2), pickb(wild))
